@@ -26,6 +26,7 @@ def _pin(s, init):
 
 
 PIPE = vf.Pipeline(PROP, "c13", ("CorruptMon.tla", "CorruptMon.cfg"), pin=_pin, heap="8g", per_class=5)
+PIPE.survive = True   # a panic in the reader's own goroutine (async read mode) kills the harness: recorded as Fatal
 
 
 def run(tier, seed):
